@@ -248,6 +248,20 @@ func c03ImplStore(c lib.Case, cfg c03Cfg) []string {
 		return c03ShowState(st)
 	}
 	for _, op := range c.Ops {
+		n := len(out)
+		func() {
+			defer c03Recover(&out, n) // a panic of the real code is the observation of this op
+			c03StoreOp(op, &out, store, db, ks, timers, rot, &mid, get)
+		}()
+	}
+	return out
+}
+
+func c03StoreOp(op string, outp *[]string, store *operator.KeyedStateStore, db *dkv.DB, ks *partitioning.KeySpace,
+	timers *operator.TimerStore, rot *c03Rot, mid *atomic.Pointer[dkv.DB], get func([]byte) string) {
+	out := *outp
+	defer func() { *outp = out }()
+	for range 1 {
 		f := strings.Fields(op)
 		switch {
 		case f[0] == "apply" && len(f) >= 2:
@@ -287,7 +301,16 @@ func c03ImplStore(c lib.Case, cfg c03Cfg) []string {
 			out = append(out, c03Instance(ks, f))
 		}
 	}
-	return out
+}
+
+func c03Recover(out *[]string, n int) {
+	if r := recover(); r != nil {
+		msg := strings.ReplaceAll(fmt.Sprint(r), "\n", " ")
+		if len(msg) > 160 {
+			msg = msg[:160]
+		}
+		*out = append((*out)[:n], "panic "+msg)
+	}
 }
 
 // c03Instance evaluates the statement of an encoder theorem on the real encoders.
@@ -485,77 +508,95 @@ func c03ImplOp(c lib.Case, cfg c03Cfg) []string {
 	}
 	rot := &c03Rot{}
 	ckpt := uint64(0)
+	preflight := operator.NewKeyedStateStore(db, partitioning.NewKeySpace(cfg.kgc, 1))
 	out := make([]string, 0, len(c.Ops))
-	for _, opl := range c.Ops {
-		f := strings.Fields(opl)
-		switch f[0] {
-		case "batch":
-			evs, res, ok := c03ParseBatch(f[1:])
-			if !ok || len(evs) == 0 || len(evs) > cfg.batch {
-				out = append(out, "bad-op")
-				continue
-			}
-			resp := &handlerpb.ProcessEventBatchResponse{}
-			for _, r := range res {
-				kr := &handlerpb.KeyResult{Key: r.key, StateMutationNamespaces: c03ToPB(r.nss)}
-				for _, t := range r.timers {
-					kr.NewTimers = append(kr.NewTimers, timestamppb.New(time.Unix(0, t)))
+	opOne := func(opl string) {
+		for range 1 {
+			f := strings.Fields(opl)
+			switch f[0] {
+			case "batch":
+				evs, res, ok := c03ParseBatch(f[1:])
+				if !ok || len(evs) == 0 || len(evs) > cfg.batch {
+					out = append(out, "bad-op")
+					continue
 				}
-				resp.KeyResults = append(resp.KeyResults, kr)
-			}
-			h.mu.Lock()
-			h.next = resp
-			h.mu.Unlock()
-			fail := ""
-			for i, k := range evs {
-				if e := send(&workerpb.Event{Event: &workerpb.Event_KeyedEvent{KeyedEvent: &handlerpb.KeyedEvent{Key: k, Value: []byte{byte(i)}, Timestamp: timestamppb.New(time.Unix(0, 1))}}}); e != "" {
-					fail = e
-					break
+				resp := &handlerpb.ProcessEventBatchResponse{}
+				for _, r := range res {
+					kr := &handlerpb.KeyResult{Key: r.key, StateMutationNamespaces: c03ToPB(r.nss)}
+					for _, t := range r.timers {
+						kr.NewTimers = append(kr.NewTimers, timestamppb.New(time.Unix(0, t)))
+					}
+					resp.KeyResults = append(resp.KeyResults, kr)
 				}
-			}
-			if fail == "" && len(evs) < cfg.batch {
-				// a partial batch is flushed by the batcher's timeout
-				do := timer.take()
-				if do == nil {
-					fail = "no-batch-timer"
-				} else {
-					// the callback returns once the event loop has taken the batch token; the loop then runs the batch
-					sent := make(chan struct{})
-					go func() { do(); close(sent) }()
-					select {
-					case <-sent:
-					case <-time.After(c03Wait):
-						fail = "timeout"
+				h.mu.Lock()
+				h.next = resp
+				h.mu.Unlock()
+				// pre-flight on this goroutine: the same GetState calls the event loop is about to make. A panic in the
+				// store then surfaces here (recovered by the framework as an observation) instead of killing the process
+				// from the operator's own goroutine.
+				for _, k := range evs {
+					if _, err := preflight.GetState(k); err != nil {
+						panic(fmt.Sprintf("GetState: %v", err))
 					}
 				}
-			}
-			if fail == "" && !syncLoop() {
-				fail = "timeout"
-			}
-			seen := h.takeSeen()
-			switch {
-			case fail != "":
-				out = append(out, fail)
-			case len(seen) == 0:
-				out = append(out, "handler-not-invoked")
-			default:
-				out = append(out, strings.Join(seen, " | "))
-			}
-		case "ckpt":
-			ckpt++
-			if e := send(&workerpb.Event{Event: &workerpb.Event_CheckpointBarrier{CheckpointBarrier: &workerpb.CheckpointBarrier{CheckpointId: ckpt}}}); e != "" {
-				out = append(out, e)
-			} else {
+				fail := ""
+				for i, k := range evs {
+					if e := send(&workerpb.Event{Event: &workerpb.Event_KeyedEvent{KeyedEvent: &handlerpb.KeyedEvent{Key: k, Value: []byte{byte(i)}, Timestamp: timestamppb.New(time.Unix(0, 1))}}}); e != "" {
+						fail = e
+						break
+					}
+				}
+				if fail == "" && len(evs) < cfg.batch {
+					// a partial batch is flushed by the batcher's timeout
+					do := timer.take()
+					if do == nil {
+						fail = "no-batch-timer"
+					} else {
+						// the callback returns once the event loop has taken the batch token; the loop then runs the batch
+						sent := make(chan struct{})
+						go func() { do(); close(sent) }()
+						select {
+						case <-sent:
+						case <-time.After(c03Wait):
+							fail = "timeout"
+						}
+					}
+				}
+				if fail == "" && !syncLoop() {
+					fail = "timeout"
+				}
+				seen := h.takeSeen()
+				switch {
+				case fail != "":
+					out = append(out, fail)
+				case len(seen) == 0:
+					out = append(out, "handler-not-invoked")
+				default:
+					out = append(out, strings.Join(seen, " | "))
+				}
+			case "ckpt":
+				ckpt++
+				if e := send(&workerpb.Event{Event: &workerpb.Event_CheckpointBarrier{CheckpointBarrier: &workerpb.CheckpointBarrier{CheckpointId: ckpt}}}); e != "" {
+					out = append(out, e)
+				} else {
+					out = append(out, "ok")
+				}
+			case "rot":
+				rot.rotate(db)
 				out = append(out, "ok")
+			case "wait":
+				out = append(out, c03WaitTasks(db))
+			default:
+				out = append(out, "bad-op")
 			}
-		case "rot":
-			rot.rotate(db)
-			out = append(out, "ok")
-		case "wait":
-			out = append(out, c03WaitTasks(db))
-		default:
-			out = append(out, "bad-op")
 		}
+	}
+	for _, opl := range c.Ops {
+		n := len(out)
+		func() {
+			defer c03Recover(&out, n)
+			opOne(opl)
+		}()
 	}
 	return out
 }
